@@ -217,8 +217,19 @@ def r2_left_right(rule, root=None):
             rule.bad("%s|Right" % lab, "Choice::Right must continue with the second operand `%s` only; it mentions %s and builds %s" % (b_n, sorted(used), sorted(ctor_names(r))), A.where(fn, cases["Right"]))
         else:
             rule.ok("%s: Right -> %s" % (lab, b_n), file=DATA, line=cases["Right"]["ln"])
+        # a kept register operand is copied from its *remapped* index when it is already active, and
+        # otherwise takes over the op's new index
+        new_n = new_index_name(root)
+        for side, operand in (("Left", a_n), ("Right", None if b_is_imm else b_n)):
+            if operand is None:
+                continue
+            why = _keep_problem(cases[side]["body"], operand, new_n)
+            if why:
+                rule.bad("%s|%s|keep" % (lab, side), "Choice::%s: %s" % (side, why), A.where(fn, cases[side]))
+            else:
+                rule.ok("%s: %s copies from the operand's remapped register or aliases it to the new index" % (lab, side))
         b = cases["Both"]["body"]
-        probs = _remap_problems(b, idx_n, [a_n] if b_is_imm else [a_n, b_n], new_index_name(root))
+        probs = _remap_problems(b, idx_n, [a_n] if b_is_imm else [a_n, b_n], new_n)
         txt = A.ftxt(b)
         if "(choice_count+=1)" not in txt:
             probs.append("does not count the surviving choice (`choice_count += 1`)")
@@ -232,6 +243,45 @@ def r2_left_right(rule, root=None):
             rule.bad("%s|Unknown" % lab, "Choice::Unknown must fail loudly", A.where(fn, cases["Unknown"]))
         else:
             rule.ok("%s: Unknown diverges" % lab)
+
+
+def _keep_problem(body, operand, new_n):
+    """`match workspace.active(*operand) { Some(r) => op = SsaOp::CopyReg(new, r), None => { workspace.set_active(*operand, new); continue } }`
+    -> None when that is what the body does (however the two cases are spelled), else what is wrong"""
+    leaves = A.branch_leaves(body)
+    some_ctx = None
+    for c in A.find(body, "Call"):
+        segs = A.path_segs(c["func"])
+        if segs and segs[0] == "SsaOp" and segs[-1] == "CopyReg":
+            args = [A.ident(A.strip(x)) for x in c["args"]]
+            if len(args) != 2 or args[0] != new_n:
+                return "CopyReg writes `%s`, not the op's new index `%s`" % (A.unparse(c["args"][0]) if c["args"] else "?", new_n)
+            # where does the source come from?
+            src = args[1]
+            ok = False
+            for m in list(A.find(body, "Match")) + list(A.find(body, "If")):
+                if m.get("k") == "Match":
+                    for arm in m["arms"]:
+                        if A.some_binding(arm["pat"]) == src and src is not None:
+                            scr = A.strip(m["e"])
+                            if scr.get("k") == "MethodCall" and scr["method"] == "active" and [A.ident(A.strip(x)) for x in scr["args"]] == [operand]:
+                                ok = True
+                else:
+                    cnd = A.strip(m["cond"])
+                    if cnd.get("k") == "LetCond" and A.some_binding(cnd["pat"]) == src and src is not None:
+                        scr = A.strip(cnd["e"])
+                        if scr.get("k") == "MethodCall" and scr["method"] == "active" and [A.ident(A.strip(x)) for x in scr["args"]] == [operand]:
+                            ok = True
+            if not ok:
+                return "CopyReg reads `%s`, which is not the register `workspace.active(*%s)` returned: the operand's index in the *parent* tape means nothing in the simplified one" % (A.unparse(c["args"][1]), operand)
+            some_ctx = c
+    sets = [c for c in A.find(body, "MethodCall") if c["method"] == "set_active"]
+    if some_ctx is None or len(sets) != 1:
+        return "expected one CopyReg (operand already active) and one set_active (operand not yet active)"
+    sa = [A.ident(A.strip(x)) for x in sets[0]["args"]]
+    if sa != [operand, new_n]:
+        return "set_active(%s) must alias `%s` to the new index `%s`" % (", ".join(map(str, sa)), operand, new_n)
+    return None
 
 
 def _remap_problems(body, idx_n, regs, new_n="new_index"):
